@@ -11,7 +11,7 @@ from pyvc import ground
 from specs.common import EventWorld, StrWalk, str_join_term, plain_name, EVENTS
 
 PROP = "C14"
-GROUNDABLE = False
+GROUNDABLE = True
 BATTERY = "c14_battery.py"
 
 
